@@ -277,15 +277,21 @@ class Builder:
     """Builds the tree with the public expression language. `cols` maps 'a','b','s','u' to columns / mapped attributes.
     `variant` (int) selects among equivalent spellings (operator vs method form) so that both are exercised."""
 
-    def __init__(self, cols, strlits, table=None, variant=0):
-        self.c, self.strlits, self.table, self.variant = cols, strlits, table, variant
+    def __init__(self, cols, strlits, table=None, variant=0, conv=None):
+        """conv: {column index: int -> python value of that column's type} for IN-list members compared with a typed column
+        (C07 typed dimension: the specification's small integers are carried by DateTime / TypeDecorator columns)"""
+        self.c, self.strlits, self.table, self.variant, self.conv = cols, strlits, table, variant, conv or {}
 
-    def items(self, nodes):
+    def _conv_of(self, lhs):
+        return self.conv.get(lhs.v) if lhs.k == "col" else None
+
+    def items(self, nodes, convs=None):
         """IN-list members: plain python values for literals (-> one expanding parameter), expressions otherwise"""
         out = []
-        for n in nodes:
+        for i, n in enumerate(nodes):
+            f = convs[i % len(convs)] if convs else None
             if n.k == "lit":
-                out.append(None if n.v == NULL else n.v)
+                out.append(None if n.v == NULL else (f(n.v) if f else n.v))
             else:
                 out.append(self.build(n))
         return out
@@ -311,11 +317,11 @@ class Builder:
         if k in ("in", "notin"):
             # a NULL left operand needs a type (an untyped null() has no literal renderer for the list members)
             lhs = literal(None, sa.Integer()) if (K[0].k == "lit" and K[0].v == NULL) else self.build(K[0])
-            items = self.items(K[1:])
+            items = self.items(K[1:], [self._conv_of(K[0])])
             return lhs.in_(items) if k == "in" else lhs.not_in(items)
         if k in ("tin", "tnotin"):
             lhs = tuple_(self.build(K[0]), self.build(K[1]))
-            flat = self.items(K[2:])
+            flat = self.items(K[2:], [self._conv_of(K[0]), self._conv_of(K[1])])
             pairs = list(zip(flat[0::2], flat[1::2]))
             return lhs.in_(pairs) if k == "tin" else lhs.not_in(pairs)
         A = [self.build(c) for c in K]
